@@ -189,7 +189,44 @@ def run_c04(tier):
                           'permutation, nested along the cut, and through removal; non-trivial = more than one key', exhaustive=True)
 
 
-RUN = {'C01': run_c01, 'C02': run_c02, 'C03': run_c03, 'C04': run_c04}
+# ---------------------------------------------------------------- C05
+def run_c05(tier):
+    ck = vlib.Check('C05', tier, 'model_checking')
+    seed = vlib.seed()
+    res = vlib.tlc(SPEC, 'Serialization', vlib.cfg({'InfinityLoopBound': 'all'}, invariants=['AcceptsExactlyCanonical', 'Emit']), name='ser')
+    if not res.ok:
+        raise vlib.Undecided('Serialization: %s %s' % (res.violated, res.error))
+    ck.add_states(res, 'decoders as staged decision trees over the class space')
+    neg = vlib.tlc(SPEC, 'Serialization', vlib.cfg({'InfinityLoopBound': 'skip-last'}, invariants=['AcceptsExactlyCanonical']), name='serneg')
+    if 'AcceptsExactlyCanonical' not in neg.violated:
+        raise vlib.Undecided('negative control D4 not detected')
+    ck.cov['negative_controls'] = 1
+    cases = tlc_cases(res.out)
+    reps = 2 if tier == 'quick' else 12
+    jobs = [{'kind': 'serial', 'seed': seed * 1000003 + i + 7919 * r, 'case': cs} for r in range(reps) for i, cs in enumerate(cases)]
+    jobs.append({'kind': 'serial-zcash', 'seed': seed, 'case': {}})
+    for k in range(1 if tier == 'quick' else 6):
+        jobs.append({'kind': 'serial-extra', 'seed': seed * 43 + k, 'case': {}})
+    execute(ck, 'C05', jobs)
+    # the key of a violation is "<predicate>|<finding id>" when the executor attributes it to a specific known finding
+    for v in ck.violations:
+        if '|' in v['key']:
+            v['key'] = 'C05:' + v['key'].split('|', 1)[1]
+    for cs in cases:
+        ck.case(vlib.digest(cs['c']), cs['expect'] == 'reject' or cs['c']['body'] != 'valid')
+    ck.cov['traces_validated_against_impl'] = len(jobs)
+    ck.sample(cases[0])
+    ck.sample([cs for cs in cases if cs['c']['dec'] == 'bls-pk' and cs['c']['body'] == 'garbage-last'][0])
+    ck.assumptions = ['reference encoders: ZCash compressed G1/G2, big-endian scalars, X9.62 points (harness/ref)',
+                      'structural BLS public-key cases are built in the coefficient order the library writes, so that other violations stay '
+                      'visible while the G2 coefficient order (known finding) is judged by the separate ZCash-vector sub-check',
+                      'the zero private key produced by aggregation is outside the decoder\'s documented domain and not required to round-trip']
+    return ck.finish(rule='cases = (decoder, length class, flag bits, coordinate / scalar class) enumerated by TLC, each concretised with fresh '
+                          'random values, plus every single-bit flip and prefix byte of valid encodings; non-trivial = anything but a plain valid encoding',
+                     exhaustive=True)
+
+
+RUN = {'C01': run_c01, 'C02': run_c02, 'C03': run_c03, 'C04': run_c04, 'C05': run_c05}
 
 
 def run(prop, tier):
